@@ -39,6 +39,21 @@ fn int_value(s: &str) -> Value {
     }
 }
 
+/// the same integer in a chosen representation: 2 = i128, 3 = u128 (i128 when negative),
+/// 6 = u64 when it fits (else narrowest)
+fn int_value_as(s: &str, form: i64) -> Value {
+    match form {
+        2 => s.parse::<i128>().map(Value::from).unwrap_or_else(|_| int_value(s)),
+        3 => s
+            .parse::<u128>()
+            .map(Value::from)
+            .or_else(|_| s.parse::<i128>().map(Value::from))
+            .unwrap_or_else(|_| int_value(s)),
+        6 => s.parse::<u64>().map(Value::from).unwrap_or_else(|_| int_value(s)),
+        _ => int_value(s),
+    }
+}
+
 fn enc_value(v: &Value, out: &mut Vec<String>) {
     if v.is_undefined() {
         out.push("3".into());
@@ -86,10 +101,12 @@ fn main() {
             match o {
                 None => String::new(),
                 Some(v) => {
-                    if form == 0 {
-                        v.clone()
-                    } else {
-                        name.to_string()
+                    match form {
+                        0 => v.clone(),
+                        // the integer arrives through the int filter (from a string / from a float)
+                        4 => format!("('{}'|int)", v),
+                        5 if v.trim_start_matches('-').len() <= 15 => format!("({}.0|int)", v),
+                        _ => name.to_string(),
                     }
                 }
             }
@@ -101,7 +118,11 @@ fn main() {
         } else {
             format!("x[{}:{}:{}]", lit(&b[0], "a"), lit(&b[1], "b"), lit(&b[2], "c"))
         };
-        let val = |o: &Option<String>| o.as_ref().map(|s| int_value(s)).unwrap_or(Value::from(()));
+        let val = |o: &Option<String>| {
+            o.as_ref()
+                .map(|s| int_value_as(s, form))
+                .unwrap_or(Value::from(()))
+        };
         let ctx = context! { x => x, a => val(&b[0]), b => val(&b[1]), c => val(&b[2]) };
         let mut out = vec![];
         match env.compile_expression(&src).and_then(|e| e.eval(ctx)) {
